@@ -174,3 +174,28 @@ def decide(fs, timeout_ms=60000):
     if r == z3.unsat:
         return 'unsat', None
     return 'unknown', None
+
+
+def decide_cvc5(fs, timeout_s=60):
+    """second solver (cvc5 1.0 binary) on the SMT-LIB2 rendering of the same query"""
+    import os
+    import subprocess
+    import tempfile
+    s = z3.Solver()
+    for f in fs:
+        s.add(f)
+    text = '(set-logic ALL)\n' + s.to_smt2()
+    fd, path = tempfile.mkstemp(suffix='.smt2', prefix='vf_cvc5_')
+    try:
+        with os.fdopen(fd, 'w') as f:
+            f.write(text)
+        try:
+            out = subprocess.run(['cvc5', '--lang', 'smt2', path], capture_output=True, text=True, timeout=timeout_s)
+        except subprocess.TimeoutExpired:
+            return 'unknown'
+        ans = out.stdout.strip().split('\n')[0] if out.stdout.strip() else ''
+        if '(error' in out.stdout or '(error' in out.stderr:
+            return 'unknown'
+        return ans if ans in ('sat', 'unsat') else 'unknown'
+    finally:
+        os.unlink(path)
